@@ -90,14 +90,18 @@ CHECKS["C03"] = dict(
 )
 CHECKS["C08"] = dict(
     engine="pyvc+rx", category="proof",
-    text="Per-function postconditions on the real tokenize.py: next_statement (INDENT spans the measured blank prefix, zero-width DEDENTs, strictly "
-         "increasing indent stack), next_end_tokens (implicit NEWLINE rule, DEDENT count, single final ENDMARKER), _tokenize (cursor invariants, ends "
-         "with ENDMARKER); regex lemmas: epsilon-freeness and named-group structure of the master pattern, string-end patterns end with their quote. "
+    text="Per-function postconditions on the real tokenize.py, all verified from the bodies: next_statement (INDENT spans the measured blank prefix, "
+         "zero-width DEDENTs, strictly increasing indent stack), next_end_tokens (implicit NEWLINE rule, DEDENT count, single final ENDMARKER), "
+         "_tokenize (cursor invariants, ends with ENDMARKER), and the string / f-string stage: prog_token, add_prog, pop_mode, EndProg methods, "
+         "handle_fstring_progs (buffered literal text + this line's text is one FSTRING_MIDDLE adjacent to the delimiter token, nothing dropped), "
+         "handle_end_progs (closing quote -> one STRING token with everything buffered, else the rest of the line is buffered; cursor right after the last "
+         "token), next_psuedo_matches (token == source slice old cursor..new cursor). Regex lemmas tie the assumed Match contract to the real patterns. "
          "Tiling reconstruction on an input product is the bounded stand-in.",
-    design_ref="DESIGN.md 5/C08",
-    note="ASSUMED contracts (bodies not verified): handle_end_progs, handle_fstring_progs, next_psuedo_matches (regex dispatch over re.Match objects and "
-         "the frame list) and re.match itself; three known findings (unterminated single-quote strings, multi-line format spec).",
-    technique="E1 postconditions/invariants (z3) + E3 regex lemmas (z3 regex solver)",
+    design_ref="DESIGN.md 5/C08, 9.2",
+    note="ASSUMED: what `re` does (contract of TokenizerState.match, engine/pymatch.py); frames below the top of end_progs are not modelled (frame "
+         "invariant with syntactic side conditions C10.frames.*); the composition of the per-function clauses into whole-stream tiling is argued. "
+         "Three known findings (unterminated single-quote strings, multi-line format spec).",
+    technique="E1 postconditions/invariants on every tokenizer function incl. the f-string mode machine (z3) + E3 regex lemmas (z3 regex solver)",
 )
 CHECKS["C09"] = dict(
     engine="rx+pyvc", category="proof",
@@ -212,10 +216,10 @@ CHECKS["C10"] = dict(
          "patterns are checked exhaustively on short strings with the real `re` (bounded). ~29000 f-strings (prefix x quote x literal x field x layout) "
          "against tokenize/ast.parse of the running CPython are the bounded stand-in; five whole input classes are known findings.",
     design_ref="DESIGN.md 5/C10",
-    note="ASSUMED: hand transcription of CPython 3.12's f-string rules; contracts of the f-string mode machine (handle_fstring_progs, "
-         "next_psuedo_matches, handle_end_progs) and concatenate_strings are not verified from their bodies - stand-in only. Known findings: doubled "
-         "braces, '=' debug fields, \\N{...}, non-ASCII columns, multi-line format spec.",
-    technique="grammar refinement + action contracts on the parser IR, E1 contracts (z3); mode machine bounded only",
+    note="ASSUMED: hand transcription of CPython 3.12's f-string rules; what `re` does (Match contract); concatenate_strings is not under contract. "
+         "The mode machine (handle_fstring_progs, handle_end_progs, next_psuedo_matches, frame methods) IS verified from its bodies (E1). Known findings: "
+         "doubled braces, '=' debug fields, \\N{...}, non-ASCII columns, multi-line format spec.",
+    technique="grammar refinement + action contracts on the parser IR, E1 contracts on the f-string mode machine (z3)",
 )
 
 NOT_APPLICABLE_REASON = "not built yet (DESIGN.md section 8 build order); no claim is made"
